@@ -610,6 +610,25 @@ def fam_markers():
                        dict(xy=True))
 
 
+def fam_markers_exit_writes():
+    """top > (a | b): `go b if x is updated|changed` in a, and an exit action of a / re-exit action of top / enter
+    action of b that WRITES x during that very transition.  The transit actions (the mark refresh) run first, so the
+    write made by the exit / re-exit / enter action comes after the refresh: the next evaluation of the same mark
+    (back in a) sees it (changed) - the framer keeps alternating; a refresh taken after the exits would swallow it."""
+    ctxs = ("enter", "exit", "rexit", "renter")
+    for kind in ("changed", "updated"):
+        for where in ("exit-a", "rexit-top", "enter-b", "exit-a+rexit-top"):
+            for (inA, by) in ((None, None), ("me", None), (None, "mk"), ("top", None)):
+                top = recs("top", ctxs) + ([("put", "rexit", 6, "x")] if "rexit-top" in where else [])
+                a = recs("a", ctxs) + ([("put", "exit", 5, "x")] if "exit-a" in where else []) + \
+                    [("go", "b", [(kind, "x", inA, by, False)])]
+                b = recs("b", ctxs) + ([("put", "enter", 7, "x")] if "enter-b" in where else []) + [("go", "a", [])]
+                frames = [dict(name="top", items=top), dict(name="a", over="top", items=a), dict(name="b", over="top", items=b)]
+                yield ("markers-exitwrite/%s/%s/A%s-%s" % (kind, where, inA, by),
+                       dict(tick=0.125, inits=[("x", 0)], framers=[dict(name="m", schedule="active", first="a", frames=frames)]),
+                       dict(alphabet=X_ALPHABET, watch=("x",)))
+
+
 # ------------------------------------------------------------------------------- C12 clones
 
 def moot_counter(name="mo", inner=None, ninner=1):
